@@ -93,6 +93,8 @@ type FuncEnc struct {
 	curTarget    ssa.Value
 	loadTop      string
 	verTop       map[string]string
+	guardedVals  map[string]string
+	deferKey     map[*ssa.Defer]string
 }
 
 func (fe *FuncEnc) sorts() *Sorts { return fe.eng.sorts }
@@ -217,6 +219,8 @@ func (fe *FuncEnc) reset() {
 	fe.frameLocs = nil
 	fe.ghostSorts = map[string]string{}
 	fe.verTop = map[string]string{}
+	fe.guardedVals = map[string]string{}
+	fe.deferKey = map[*ssa.Defer]string{}
 	fe.loadTop = ""
 }
 
@@ -863,6 +867,7 @@ func (fe *FuncEnc) val(v ssa.Value) string {
 	case *ssa.Global:
 		t := fe.sc.declareNamed("global."+v.Pkg.Pkg.Name()+"."+v.Name(), sInt)
 		fe.vals[v] = t
+		fe.knownNonNil[t] = true
 		return t
 	case *ssa.Builtin:
 		return "0"
